@@ -413,21 +413,26 @@ def _np_eval(s, env):
     return v
 
 
-def same_family(f, u, rng, nsamples=5, stats=None):
+def same_family(f, u, rng, nsamples=6, stats=None):
     """Forward direction of 'both describe the same family of curves': for sampled parameters of f there are
     parameters of u with u(.;phi) = f(.;theta) on 8 abscissae.  Returns True / False / None (inconclusive).
-    False only if ALL of >= nsamples valid samples fail from every start (candidate combinations of theta,
-    then random multi-start Levenberg-Marquardt)."""
+    A sample is a *hard failure* if neither the candidate values (one- and two-level combinations of theta) nor
+    Levenberg-Marquardt from the 40 best starts gets the scaled residual below 1e-3; False needs >= 3 hard failures among
+    the valid samples (e.g. a family of all real constants merged into one of non-negative constants fails for about half of
+    the samples), True needs every valid sample to succeed."""
+    import itertools
     import numpy as np
     from scipy.optimize import least_squares
     key = (f, u)
     if key in _family_cache:
-        return _family_cache[key]
+        v = _family_cache[key]
+        return v
     kf, ku = nparams(f), nparams(u)
     xs = np.array([0.37, 0.61, 0.93, 1.21, 1.58, 1.97, 2.44, 2.89])
-    fails = valid = 0
-    verdict = None
-    for _ in range(4 * nsamples):
+    hard = succ = valid = 0
+    for _ in range(5 * nsamples):
+        if valid >= nsamples:
+            break
         th = [rng.choice([-1, 1]) * rng.uniform(0.4, 2.5) for _ in range(kf)]
         y = _np_eval(f, dict({'a%d' % j: th[j] for j in range(kf)}, x=xs))
         if y is None or not np.all(np.isfinite(y)) or np.max(np.abs(y)) > 1e8:
@@ -440,62 +445,60 @@ def same_family(f, u, rng, nsamples=5, stats=None):
             if v is None or not np.all(np.isfinite(v)):
                 return np.full(len(xs), 1e6)
             return (v - y) / scale
-        ok = False
+        best = np.inf
         if ku == 0:
-            ok = float(np.max(np.abs(resid([])))) < 1e-9
+            best = float(np.max(np.abs(resid([]))))
         else:
-            cands = set()
-            base = list(th) + [1.0, 2.0, 0.5, 3.0]
-            for a in base:
-                for g in (a, -a, 1 / a if a else 1.0, a * a, abs(a) ** 0.5, np.exp(a), np.log(abs(a)) if a else 0.0, a ** 3, 10.0 ** a if abs(a) < 5 else 1.0):
-                    cands.add(round(float(g), 12))
-            for a in th:
-                for b in th:
-                    if a is b:
-                        continue
-                    for g in (a + b, a - b, a * b, a / b, abs(a) ** b, abs(a) * b, a / abs(b), a + abs(b), abs(a) + abs(b), abs(a) * abs(b),
-                              abs(a) - abs(b), abs(a) / abs(b)):
-                        if np.isfinite(g):
-                            cands.add(round(float(g), 12))
-            if kf >= 3:
-                cands.add(round(float(sum(th)), 12))
-                cands.add(round(float(np.prod(th)), 12))
-            cands = sorted(c for c in cands if np.isfinite(c) and abs(c) < 1e6)
-            import itertools
-            starts = []
+            with np.errstate(all='ignore'):
+                lvl1 = set()
+                for a in list(th) + [1.0, 2.0, 0.5, 3.0, 10.0]:
+                    for g in (a, -a, 1 / a, a * a, abs(a) ** 0.5, np.exp(a), np.log(abs(a)), a ** 3, 10.0 ** a, np.log10(abs(a)), abs(a), np.sin(a)):
+                        if np.isfinite(g) and abs(g) < 1e6:
+                            lvl1.add(round(float(g), 12))
+                t1 = [c for c in lvl1]
+                core = []
+                for a in th:
+                    core += [a, -a, 1 / a, abs(a), a * a, np.exp(a), np.log(abs(a)), abs(a) ** 0.5]
+                core = [c for c in core if np.isfinite(c)]
+                lvl2 = set(t1)
+                for a, b in itertools.permutations(core, 2):
+                    for g in (a + b, a - b, a * b, a / b if b else np.inf, abs(a) ** b):
+                        if np.isfinite(g) and abs(g) < 1e6:
+                            lvl2.add(round(float(g), 12))
+                if kf >= 3:
+                    lvl2.add(round(float(sum(th)), 12))
+                    lvl2.add(round(float(np.prod(th)), 12))
+            cands = sorted(lvl2)
             if ku == 1:
                 starts = [[c] for c in cands]
             else:
-                pick = cands[:40] if len(cands) > 40 else cands
-                starts = [list(t) for t in itertools.islice(itertools.product(pick, repeat=ku), 4000)]
+                pick = sorted(lvl2, key=lambda c: (c not in lvl1, abs(c)))[:45]
+                starts = [list(t) for t in itertools.islice(itertools.product(pick, repeat=ku), 6000)]
                 rng.shuffle(starts)
-                starts = starts[:400]
-            starts += [[rng.choice([-1, 1]) * 10 ** rng.uniform(-1, 1) for _ in range(ku)] for _ in range(30)]
-            best = np.inf
-            # cheap screening first, then refine the most promising starts
+                starts = starts[:1200]
+            starts += [[rng.choice([-1, 1]) * 10 ** rng.uniform(-1.5, 1.5) for _ in range(ku)] for _ in range(40)]
             scored = sorted(((float(np.max(np.abs(resid(s_)))), s_) for s_ in starts), key=lambda t: t[0])
-            for r0, s_ in scored[:25]:
-                if r0 < 1e-9:
-                    ok = True
+            for r0, s_ in scored[:40]:
+                best = min(best, r0)
+                if best < 1e-9:
                     break
                 try:
-                    sol = least_squares(resid, s_, method='lm', xtol=1e-14, ftol=1e-14, max_nfev=200)
-                    r1 = float(np.max(np.abs(sol.fun)))
+                    sol = least_squares(resid, s_, method='lm', xtol=1e-14, ftol=1e-14, max_nfev=300)
+                    best = min(best, float(np.max(np.abs(sol.fun))))
                 except Exception:
                     continue
-                best = min(best, r1)
-                if r1 < 1e-7:
-                    ok = True
+                if best < 1e-7:
                     break
-        if not ok:
-            fails += 1
-        else:
-            verdict = True
-            break
-        if valid >= nsamples:
-            break
-    if verdict is None:
-        verdict = False if (valid >= nsamples and fails == valid) else None
+        if best < 1e-7:
+            succ += 1
+        elif best > 1e-3:
+            hard += 1
+    if hard >= 3:
+        verdict = False
+    elif valid >= 3 and succ == valid:
+        verdict = True
+    else:
+        verdict = None
     _family_cache[key] = verdict
     if stats is not None:
         k = 'family_ok' if verdict else ('family_fail' if verdict is False else 'family_inconclusive')
